@@ -135,6 +135,9 @@ func (c *ctx) ocClientResults(count int) {
 		var payloads [][]byte
 		var stream []byte
 		n := 1 + c.rng.Intn(12)
+		if i%10 == 0 {
+			n = 62 + c.rng.Intn(5) // around 256 payload bytes: the extended-length format
+		}
 		for j := 0; j < k; j++ {
 			switch c.rng.Intn(4) {
 			case 0: // same length
@@ -174,8 +177,98 @@ func (c *ctx) ocClientResults(count int) {
 	}
 }
 
+// mkCanConf: a destination of length l and capacity cp whose whole backing array holds junk settings
+func (c *ctx) mkCanConf(l, cp int) xsens.CANOutputConfiguration {
+	if cp < l {
+		cp = l
+	}
+	o := make(xsens.CANOutputConfiguration, l, cp)
+	full := o[:cp]
+	for i := range full {
+		full[i] = xsens.CANOutputConfigurationSetting{
+			CANDataIdentifier: xsens.CANDataIdentifier(c.rng.Intn(256)), CANIDLengthFlag: c.rng.Intn(2) == 0,
+			IDMask: uint32(c.rng.Uint32()), OutputFrequency: xsens.OutputFrequency(c.rng.Intn(65536)),
+		}
+	}
+	return o
+}
+
+// coUnmarshal decodes d into dst and records the destination's backing contents beforehand.
+func (c *ctx) coUnmarshal(dst *xsens.CANOutputConfiguration, d []byte, extra int) {
+	backing := append([]xsens.CANOutputConfigurationSetting(nil), (*dst)[:cap(*dst)]...)
+	var buf []byte
+	if extra == 0 {
+		buf = exact(d)
+	} else {
+		buf = roomy(d, extra)
+	}
+	r := "RPan"
+	protect(func() {
+		if err := dst.UnmarshalBinary(buf); err != nil {
+			r = "RErr"
+		} else {
+			r = "(ROk " + csetsTerm(*dst) + ")"
+		}
+	})
+	c.emit("counm", tup(csetsTerm(backing), nlist(d), us(uint64(extra)), r))
+}
+
+// canOutSequences: a kept destination decoded into again and again (longer, shorter, in between), and preallocated
+// destinations in every relation of length, capacity and number of settings in the payload
+func (c *ctx) canOutSequences(count int) {
+	for i := 0; i < count; i++ {
+		var dst xsens.CANOutputConfiguration
+		switch c.rng.Intn(4) {
+		case 0:
+			dst = nil
+		case 1:
+			dst = make(xsens.CANOutputConfiguration, 0, 1+c.rng.Intn(8))
+		default:
+			dst = c.mkCanConf(c.rng.Intn(5), c.rng.Intn(9))
+		}
+		for k := 0; k < 4; k++ {
+			n := []int{5, 1, 3, 0, 2, 7}[c.rng.Intn(6)]
+			d := c.payload(8*n + []int{0, 0, 3, 7}[c.rng.Intn(4)])
+			c.coUnmarshal(&dst, d, 0)
+		}
+		c.count("kept-destination-sequences")
+	}
+	for cp := 0; cp <= 6; cp++ {
+		for l := 0; l <= cp; l++ {
+			for n := 0; n <= 7; n++ {
+				dst := c.mkCanConf(l, cp)
+				c.coUnmarshal(&dst, c.payload(8*n), 0)
+			}
+		}
+	}
+}
+
+// ocClientSends: configurations of every size handed to the client's SetOutputConfiguration; what reaches the wire is
+// the case's encoding (the request frame's payload)
+func (c *ctx) ocClientSends() {
+	for _, n := range []int{0, 1, 2, 31, 32, 33, 63, 64, 65, 100, 128, 256, 511, 512} {
+		cfg := make(xsens.OutputConfiguration, n)
+		for j := range cfg {
+			cfg[j] = c.inRangeSetting()
+		}
+		port := &scriptedPort{r: &chunkReader{data: xsens.NewMessage(xsens.MessageIdentifierSetOutputConfigurationAck, nil), final: io.EOF}}
+		cl := xsens.NewClient(port)
+		r := "RPan"
+		protect(func() {
+			if err := cl.SetOutputConfiguration(context.Background(), cfg); err != nil || len(port.writes) != 1 {
+				r = "RErr"
+				return
+			}
+			r = "(ROk " + nlist(xsens.Message(port.writes[0]).Data()) + ")"
+		})
+		c.emit("ocmar", tup(settingsTerm(cfg), r))
+		c.count("configurations-sent-through-client")
+	}
+}
+
 func init() {
 	props["C13"] = func(c *ctx) {
+		c.ocClientSends()
 		c.ocClientResults(c.pick(120, 1500))
 		// prior destination states: nil, shorter, longer, spare capacity, junk contents, aliasing an earlier result
 		mk := c.mkConf
@@ -270,37 +363,24 @@ func init() {
 			canUnm([]byte{0xaa, 0xbb, byte(e), byte(255 - e)}, 0)
 		}
 		// output configuration: 0..32 settings with arbitrary field values
-		mkc := func(l, cp int) xsens.CANOutputConfiguration {
-			if cp < l {
-				cp = l
-			}
-			o := make(xsens.CANOutputConfiguration, l, cp)
-			full := o[:cp]
-			for i := range full {
-				full[i] = xsens.CANOutputConfigurationSetting{
-					CANDataIdentifier: xsens.CANDataIdentifier(c.rng.Intn(256)), CANIDLengthFlag: c.rng.Intn(2) == 0,
-					IDMask: uint32(c.rng.Uint32()), OutputFrequency: xsens.OutputFrequency(c.rng.Intn(65536)),
-				}
-			}
-			return o
-		}
-		coUnm := func(dst *xsens.CANOutputConfiguration, d []byte, extra int) {
-			backing := append([]xsens.CANOutputConfigurationSetting(nil), (*dst)[:cap(*dst)]...)
-			var buf []byte
-			if extra == 0 {
-				buf = exact(d)
-			} else {
-				buf = roomy(d, extra)
-			}
+		mkc, coUnm := c.mkCanConf, c.coUnmarshal
+		c.canOutSequences(c.pick(100, 1000))
+		// through a frame and the client: 0..32 settings (32 settings need the extended-length format)
+		for _, n := range []int{0, 1, 2, 16, 30, 31, 32} {
+			payload := c.payload(8 * n)
+			port := &scriptedPort{r: &chunkReader{data: xsens.NewMessage(xsens.MessageIdentifierReqCANOutputConfigAck, payload), final: io.EOF}}
+			cl := xsens.NewClient(port)
 			r := "RPan"
 			protect(func() {
-				if err := dst.UnmarshalBinary(buf); err != nil {
+				v, err := cl.GetCANOutputConfiguration(context.Background())
+				if err != nil {
 					r = "RErr"
-				} else {
-					r = "(ROk " + csetsTerm(*dst) + ")"
+					return
 				}
+				r = "(ROk " + csetsTerm(v) + ")"
 			})
-			c.emit("counm", tup(csetsTerm(backing), nlist(d), us(uint64(extra)), r))
+			c.emit("counm", tup(csetsTerm(nil), nlist(payload), us(0), r))
+			c.count("through-client")
 		}
 		for i := 0; i < c.pick(250, 2500); i++ {
 			n := c.rng.Intn(33)
@@ -352,8 +432,12 @@ func init() {
 	}
 
 	props["C14"] = func(c *ctx) {
+		var again []byte // when set: the same query is made once more (acknowledge payload `again`) before the first result is looked at
 		query := func(name string, ack xsens.MessageIdentifier, payload []byte) {
 			stream := append([]byte(xsens.NewMessage(xsens.MessageIdentifierWakeup, nil)), xsens.NewMessage(ack, payload)...)
+			if again != nil {
+				stream = append(stream, xsens.NewMessage(ack, again)...)
+			}
 			port := &scriptedPort{r: &chunkReader{data: stream, final: io.EOF}}
 			cl := xsens.NewClient(port)
 			ctx := context.Background()
@@ -404,6 +488,9 @@ func init() {
 					}
 				case "GetOutputConfiguration":
 					v, err := cl.GetOutputConfiguration(ctx)
+					if again != nil && err == nil {
+						_, _ = cl.GetOutputConfiguration(ctx)
+					}
 					if err != nil {
 						r = "RErr"
 						if v != nil {
@@ -418,6 +505,9 @@ func init() {
 					}
 				case "GetCANOutputConfiguration":
 					v, err := cl.GetCANOutputConfiguration(ctx)
+					if again != nil && err == nil {
+						_, _ = cl.GetCANOutputConfiguration(ctx)
+					}
 					if err != nil {
 						r = "RErr"
 						if v != nil {
@@ -436,6 +526,9 @@ func init() {
 					}
 				case "GetCANConfiguration":
 					v, err := cl.GetCANConfiguration(ctx)
+					if again != nil && err == nil {
+						_, _ = cl.GetCANConfiguration(ctx)
+					}
 					if err != nil {
 						r = "RErr"
 						if v != nil {
@@ -496,8 +589,29 @@ func init() {
 			// extended-length acknowledges
 			if q.name != "GetProductCode" {
 				query(q.name, q.ack, c.payload(255+c.rng.Intn(300)))
+				query(q.name, q.ack, c.payload(255))
+				query(q.name, q.ack, c.payload(256))
 			}
 		}
+		// a result belongs to the caller: it is looked at after the same query has been answered again (same size,
+		// shorter, longer)
+		for _, q := range qs[3:] {
+			unit := map[string]int{"GetOutputConfiguration": 4, "GetCANOutputConfiguration": 8, "GetCANConfiguration": 4}[q.name]
+			for k := 0; k < c.pick(30, 300); k++ {
+				n1 := 1 + c.rng.Intn(6)
+				n2 := []int{n1, c.rng.Intn(n1 + 1), n1 + c.rng.Intn(3)}[c.rng.Intn(3)]
+				if q.name == "GetCANConfiguration" {
+					n1, n2 = 1, 1
+				}
+				again = c.payload(unit * n2)
+				if len(again) == 0 {
+					again = []byte{}
+				}
+				query(q.name, q.ack, c.payload(unit*n1))
+				c.count("result-examined-after-a-later-query")
+			}
+		}
+		again = nil
 		query("GetProductCode", xsens.MessageIdentifierProductCode, []byte("MTi-680G-8A1G6      "))
 		query("GetProductCode", xsens.MessageIdentifierProductCode, []byte("\f\v"))
 		query("GetProductCode", xsens.MessageIdentifierProductCode, []byte(" \tMTi 30 \r\n"))
